@@ -94,9 +94,9 @@ static bool run_hook(lzma_stream *s, lzma_ret r, void *a) {
 struct Ran { drv::Result R; bool nontrivial = false; };
 
 // Drive an initialised decoder over `in`; ends the stream.  mask = documented lzma_code() values for this coder.
-static drv::Result drive(const char *fn, lzma_stream *s, const Heap &in, const Params &P, uint32_t mask, bool limited, size_t idle_limit = 3) {
+static drv::Result drive(const char *fn, lzma_stream *s, const Heap &in, const Params &P, uint32_t mask, bool limited, size_t idle_limit = 3, bool declared_size = false) {
 	RunCtx x; x.fn = fn; x.mask = mask | M_OK | M_END | M_BUF | M_MEM; if (limited) x.mask |= M_MEMLIMIT; x.raise = P.raise && limited;
-	drv::Opts o; o.final_action = P.fin; o.out_cap = P.out_cap; o.stop_on_memlimit = !x.raise; o.hook = run_hook; o.hook_arg = &x; o.idle_limit = idle_limit; o.small_call_budget = 6000;
+	drv::Opts o; o.final_action = P.fin; o.out_cap = P.out_cap; o.stop_on_memlimit = !x.raise; o.hook = run_hook; o.hook_arg = &x; o.idle_limit = idle_limit; o.small_call_budget = 6000; o.input_beyond_declared_size = declared_size;
 	drv::Result R = run_exact(s, in.p, in.n, P.sch, o);
 	if (R.call_bound || x.bound) violation("C04:call-bound", "%s: no end after %zu calls (%u limit raises) for %zu input bytes and %zu output bytes; last return %s", fn, R.calls, x.raises, in.n, R.out.size(), drv::retname(R.ret));
 	if (R.capped && R.ret == LZMA_OK) { count("output_cap_reached"); R.ret = starve(fn, s, in.p, in.n, P.fin, x.mask); R.total_in = s->total_in; }
@@ -141,7 +141,7 @@ static bool e_microlzma(const Params &P, const Heap &in) {
 	lzma_ret ir = lzma_microlzma_decoder(&s, comp, unc, exact, dict);
 	check_code("lzma_microlzma_decoder", ir, M_OK | M_MEM | M_OPTIONS);
 	if (ir != LZMA_OK) { lzma_end(&s); count("microlzma_init_rejected"); return false; }
-	drv::Result R = drive("lzma_microlzma_decoder:lzma_code", &s, in, P, M_OPTIONS | M_DATA, false);
+	drv::Result R = drive("lzma_microlzma_decoder:lzma_code", &s, in, P, M_OPTIONS | M_DATA, false, 3, true);
 	lzma_end(&s);
 	if (!R.capped && unc <= LZMA_VLI_MAX && R.out.size() > unc) violation("C04:microlzma-output-exceeds-size", "produced %zu bytes, uncomp_size %llu", R.out.size(), (unsigned long long)unc);
 	count(std::string("ret_microlzma_") + drv::retname(R.ret));
